@@ -38,3 +38,17 @@ Print Assumptions C18_terminate_connection_closed_form.
 Print Assumptions C18_error_codes_of_the_exception_classes.
 Print Assumptions C18_oversized_frame_is_rejected_as_too_large.
 Print Assumptions C18_oversized_header_list_is_enhance_your_calm.
+
+(* in every state reachable by any history, _terminate_connection cannot trip the frame-size assertion: exactly one GOAWAY is
+   appended and the call returns normally *)
+From H2 Require Import Proofs.MfsInv.
+Theorem C18_terminate_connection_always_succeeds :
+  forall cfg os code,
+    let c := run (conn_new cfg) os in
+    terminate_connection code c = (cset_out (cset_state c C_CLOSED) (c_out c ++ [FGoAway (c_hi_in c) code 0]), Ok tt).
+Proof.
+  intros cfg os code c. rewrite terminate_closed_form. cbv zeta.
+  pose proof (frame_size_limit_after_any_history cfg os) as H. fold c in H.
+  destruct (8 <=? c_max_out_frame c) eqn:E; [reflexivity|lia].
+Qed.
+Print Assumptions C18_terminate_connection_always_succeeds.
